@@ -428,8 +428,106 @@ def merge_rebindings(tree):
     return n
 
 
+def version_rebindings(tree):
+    """straight-line single assignment: a local that is assigned several times, always by a plain statement in the top-level statement
+    list of its function (never in a branch, a loop, a nested scope, an augmented assignment or a deletion), gets a new name at
+    each assignment after the first (`X = cast(X)` on a parameter, `v = f(v)` chains, what inlining a helper that re-binds its
+    parameter leaves behind).  Reads are renamed to the version current at their statement."""
+    n = 0
+    for fn in [x for x in ast.walk(tree) if isinstance(x, (ast.FunctionDef, ast.AsyncFunctionDef))]:
+        top = fn.body
+        params = {a.arg for a in fn.args.posonlyargs + fn.args.args + fn.args.kwonlyargs} | ({fn.args.vararg.arg} if fn.args.vararg else set()) | \
+            ({fn.args.kwarg.arg} if fn.args.kwarg else set())
+        top_store_stmts = {}  # name -> [index of top-level simple statement that stores it]
+        bad = set()
+        for i, st in enumerate(top):
+            simple_st = isinstance(st, (ast.Assign, ast.AnnAssign)) and not (isinstance(st, ast.AnnAssign) and st.value is None)
+            for x in ast.walk(st):
+                if isinstance(x, (ast.FunctionDef, ast.AsyncFunctionDef, ast.Lambda, ast.ClassDef)):
+                    # names used inside nested scopes are read when the closure runs, not where it is written
+                    bad |= {y.id for y in ast.walk(x) if isinstance(y, ast.Name)}
+                if isinstance(x, (ast.Global, ast.Nonlocal)):
+                    bad |= set(x.names)
+                if isinstance(x, (ast.MatchAs, ast.MatchStar)) and x.name:
+                    bad.add(x.name)
+                if isinstance(x, ast.NamedExpr) and isinstance(x.target, ast.Name):
+                    bad.add(x.target.id)
+                if isinstance(x, ast.Name) and isinstance(x.ctx, (ast.Store, ast.Del)):
+                    in_target = simple_st and any(x is t or any(x is y for y in ast.walk(t)) for t in (st.targets if isinstance(st, ast.Assign) else [st.target]))
+                    if isinstance(x.ctx, ast.Del) or not in_target:
+                        bad.add(x.id)  # stored by a loop header, a with-item, a comprehension, an augmented assignment, inside a branch ...
+                    else:
+                        top_store_stmts.setdefault(x.id, []).append(i)
+            if isinstance(st, (ast.FunctionDef, ast.AsyncFunctionDef, ast.ClassDef)):
+                bad.add(st.name)
+            if isinstance(st, ast.AugAssign):
+                bad |= {y.id for y in ast.walk(st.target) if isinstance(y, ast.Name)}
+        cands = {nm for nm, idxs in top_store_stmts.items() if nm not in bad and (len(idxs) + (1 if nm in params else 0)) > 1 and len(set(idxs)) == len(idxs)}
+        if not cands:
+            continue
+        current = {}
+        count = {nm: 0 for nm in cands}
+        for i, st in enumerate(top):
+            # reads of this statement see the versions current before it
+            stores_here = []
+            for x in ast.walk(st):
+                if isinstance(x, ast.Name) and x.id in cands:
+                    if isinstance(x.ctx, ast.Load):
+                        if x.id in current:
+                            x.id = current[x.id]
+                    else:
+                        stores_here.append(x)
+            for x in stores_here:
+                nm = x.id
+                first = count[nm] == 0 and nm not in params
+                count[nm] += 1
+                if first:
+                    continue
+                new = f"{nm}__{count[nm]}"
+                current[nm] = new
+                x.id = new
+                n += 1
+    return n
+
+
+def coalesce_copies(tree):
+    """`y = p` at the top level of a function where p is never used again and y is not used before: y IS p from there on (the fresh
+    local a helper's re-bound parameter became when the helper was inlined).  y is renamed to p and the copy disappears, which gives
+    back `for M in Ms: v = v @ M`."""
+    n = 0
+    for fn in [x for x in ast.walk(tree) if isinstance(x, (ast.FunctionDef, ast.AsyncFunctionDef))]:
+        changed = True
+        while changed:
+            changed = False
+            nested_names = set()
+            for x in ast.walk(fn):
+                if isinstance(x, (ast.FunctionDef, ast.AsyncFunctionDef, ast.Lambda, ast.ClassDef)) and x is not fn:
+                    nested_names |= {y.id for y in ast.walk(x) if isinstance(y, ast.Name)}
+            for i, st in enumerate(fn.body):
+                if not (isinstance(st, ast.Assign) and len(st.targets) == 1 and isinstance(st.targets[0], ast.Name) and isinstance(st.value, ast.Name)):
+                    continue
+                y, p_ = st.targets[0].id, st.value.id
+                if y == p_ or y in nested_names or p_ in nested_names:
+                    continue
+                before = [x for s_ in fn.body[:i] for x in ast.walk(s_) if isinstance(x, ast.Name)]
+                after = [x for s_ in fn.body[i + 1:] for x in ast.walk(s_) if isinstance(x, ast.Name)]
+                args_ = {a.arg for a in fn.args.posonlyargs + fn.args.args + fn.args.kwonlyargs}
+                if any(x.id == y for x in before) or y in args_ or any(x.id == p_ for x in after):
+                    continue
+                for x in after:
+                    if x.id == y:
+                        x.id = p_
+                del fn.body[i]
+                if not fn.body:
+                    fn.body.append(ast.copy_location(ast.Pass(), st))
+                n += 1
+                changed = True
+                break
+    return n
+
+
 def _temps_and_tuples(tree):
-    total = unroll_literal_comprehensions(tree) + flatten_starred_literals(tree) + merge_rebindings(tree) + propagate_copies(tree)
+    total = unroll_literal_comprehensions(tree) + flatten_starred_literals(tree) + merge_rebindings(tree) + coalesce_copies(tree) + version_rebindings(tree) + propagate_copies(tree)
     # temporaries first: `t1 = e1; t2 = e2; a, b = t1, t2` must become `a, b = e1, e2` before deciding whether that assignment splits
     for _round in range(2):
         for x in ast.walk(tree):
@@ -1000,40 +1098,82 @@ _SIMPLE_STMTS = (ast.Assign, ast.AnnAssign, ast.AugAssign, ast.Expr, ast.Assert,
 _NO_INLINE_INSIDE = (ast.Lambda, ast.ListComp, ast.GeneratorExp, ast.SetComp, ast.DictComp)
 
 
+_PROTOCOL_METHODS = {"_matmat", "_rmatmat", "_matvec", "_rmatvec"}
+
+
+def _helper_ok(st, body):
+    if any(isinstance(x, (ast.FunctionDef, ast.AsyncFunctionDef, ast.ClassDef, ast.Lambda, ast.Yield, ast.YieldFrom, ast.Await, ast.NamedExpr, ast.Global, ast.Nonlocal))
+           for s in body for x in ast.walk(s)):
+        return False
+    for s in body:
+        for x in ast.walk(s):
+            if isinstance(x, ast.Call):
+                f = x.func
+                if (isinstance(f, ast.Name) and f.id == st.name) or (isinstance(f, ast.Attribute) and f.attr == st.name):
+                    return False  # recursive
+                if isinstance(f, ast.Name) and f.id in ("super", "locals", "vars"):
+                    return False
+    return True
+
+
+def _helper_shape(body):
+    """'straight' (simple statements then one return / a procedure), 'single-exit' (any statements, one return, at the end),
+    'branching' (several exits: inlined in tail position only)"""
+    is_proc = not any(isinstance(x, ast.Return) for s in body for x in ast.walk(s))
+    if is_proc:
+        return "straight" if all(isinstance(s, _SIMPLE_STMTS) for s in body) else None
+    if isinstance(body[-1], ast.Return) and body[-1].value is not None and sum(isinstance(x, ast.Return) for s in body for x in ast.walk(s)) == 1:
+        return "straight" if all(isinstance(s, _SIMPLE_STMTS) for s in body[:-1]) else "single-exit"
+    return "branching"
+
+
 def _inlinable_helpers(tree):
+    """name -> (def, kind): private module-level functions (kind 'func') and private methods / static methods of the module's classes
+    whose name is defined once in the module (no override: `self._name(..)` then means that definition) -- kinds 'method', 'static'"""
     out = {}
+    defined = {}
     for st in tree.body:
-        if not (isinstance(st, ast.FunctionDef) and st.name.startswith("_") and not st.name.startswith("__") and not st.decorator_list):
-            continue
+        if isinstance(st, ast.FunctionDef):
+            defined.setdefault(st.name, []).append(st)
+        elif isinstance(st, ast.ClassDef):
+            for m in st.body:
+                if isinstance(m, ast.FunctionDef):
+                    defined.setdefault(m.name, []).append(m)
+
+    def consider(st, kind, cls=None):
+        if not (st.name.startswith("_") and not st.name.startswith("__")) or st.name in _PROTOCOL_METHODS or len(defined.get(st.name, [])) != 1:
+            return
         a = st.args
-        if a.vararg or a.kwarg or a.posonlyargs:
-            continue
+        if a.kwarg or a.posonlyargs:
+            return
         body = [s for s in st.body if not (isinstance(s, ast.Expr) and isinstance(s.value, ast.Constant))]
-        if not body:
-            continue
-        # a function helper ends in `return <value>`; a procedure helper (only assertions / stores, no return) is inlined where it is
-        # called as a statement
-        is_proc = not any(isinstance(x, ast.Return) for s in body for x in ast.walk(s))
-        straight = (is_proc or (isinstance(body[-1], ast.Return) and body[-1].value is not None)) and all(isinstance(s, _SIMPLE_STMTS) for s in (body if is_proc else body[:-1]))
-        # a helper with branches (if / elif / early returns) is inlined only where it is called in tail position (`return helper(...)`):
-        # its returns become the caller's
-        branching = not straight and all(isinstance(x, _SIMPLE_STMTS + (ast.If, ast.Return, ast.Raise)) for s in body for x in ast.walk(s) if isinstance(x, ast.stmt))
-        if not straight and not branching:
-            continue
-        if any(isinstance(x, (ast.FunctionDef, ast.Lambda, ast.Yield, ast.YieldFrom, ast.Await, ast.NamedExpr, ast.Global, ast.Nonlocal)) for s in body for x in ast.walk(s)):
-            continue
-        if any(isinstance(x, ast.Call) and isinstance(x.func, ast.Name) and x.func.id == st.name for s in body for x in ast.walk(s)):
-            continue  # recursive
-        out[st.name] = (st, body, branching)
+        if not body or not _helper_ok(st, body) or _helper_shape(body) is None:
+            return
+        if kind == "method" and not a.args:
+            return
+        out[st.name] = (st, kind, cls)
+
+    for st in tree.body:
+        if isinstance(st, ast.FunctionDef) and not st.decorator_list:
+            consider(st, "func")
+        elif isinstance(st, ast.ClassDef):
+            for m in st.body:
+                if isinstance(m, ast.FunctionDef):
+                    decos = [ast.unparse(d) for d in m.decorator_list]
+                    if not decos:
+                        consider(m, "method", st)
+                    elif decos == ["staticmethod"]:
+                        consider(m, "static", st)
     return out
 
 
-def _bind(fn, call, tag=0):
+def _bind(fn, call, tag=0, drop_self=False):
     """(parameter -> argument expression, prefix statements), or None when the call cannot be bound statically.  One starred
     positional argument is bound when the helper has no defaults: it covers exactly the parameters nothing else fills, and is
-    unpacked into fresh locals (`f(*e, c)` with `def f(a, b, c)` gives `_a, _b = e`)"""
+    unpacked into fresh locals (`f(*e, c)` with `def f(a, b, c)` gives `_a, _b = e`).  A `*rest` parameter of the helper is bound to
+    the tuple of the surplus positional arguments."""
     a = fn.args
-    pos = [p.arg for p in a.args]
+    pos = [p.arg for p in a.args][1 if drop_self else 0:]
     params = pos + [p.arg for p in a.kwonlyargs]
     if any(k.arg is None for k in call.keywords):
         return None
@@ -1041,7 +1181,7 @@ def _bind(fn, call, tag=0):
     pre = []
     args = list(call.args)
     if stars:
-        if len(stars) > 1 or a.defaults:
+        if len(stars) > 1 or a.defaults or a.vararg:
             return None
         named = [k.arg for k in call.keywords if k.arg in pos]
         m = len(pos) - (len(args) - 1) - len(named)
@@ -1052,16 +1192,23 @@ def _bind(fn, call, tag=0):
         fresh = [ast.Name(id=f"_inl{tag}_{p}", ctx=ast.Store()) for p in covered]
         pre.append(ast.Assign(targets=[ast.Tuple(elts=fresh, ctx=ast.Store())], value=args[i].value, lineno=call.lineno))
         args[i:i + 1] = [ast.Name(id=f.id, ctx=ast.Load()) for f in fresh]
-    if len(args) > len(pos):
-        return None
     bound = {}
+    if len(args) > len(pos):
+        if a.vararg is None:
+            return None
+        bound[a.vararg.arg] = ast.Tuple(elts=list(args[len(pos):]), ctx=ast.Load())
+        args = args[:len(pos)]
+    elif a.vararg is not None:
+        bound[a.vararg.arg] = ast.Tuple(elts=[], ctx=ast.Load())
     for p, v in zip(pos, args):
         bound[p] = v
     for k in call.keywords:
         if k.arg not in params or k.arg in bound:
             return None
         bound[k.arg] = k.value
-    defaults = dict(zip(pos[len(pos) - len(a.defaults):], a.defaults))
+    n_def = len(a.defaults)
+    all_pos = [p.arg for p in a.args]
+    defaults = dict(zip(all_pos[len(all_pos) - n_def:], a.defaults)) if n_def else {}
     defaults.update({p.arg: d for p, d in zip(a.kwonlyargs, a.kw_defaults) if d is not None})
     for p in params:
         if p not in bound:
@@ -1091,80 +1238,71 @@ def _copy(node):
 
 
 def inline_helpers(tree):
-    """in place; returns the number of call sites inlined"""
+    """in place; returns the number of call sites inlined.  Helpers are private module-level functions and private (static) methods
+    of the module's classes that no other class of the module re-defines; a call `name(..)` / `self._name(..)` is replaced by the
+    helper's body with its parameters bound -- as statements before the calling statement (one exit at the end of the helper), in
+    place of `return helper(..)` (any shape), or as one expression where statements cannot be placed (inside a comprehension, a
+    conditional expression or a lambda; only helpers that reduce to one expression)."""
     helpers = _inlinable_helpers(tree)
     if not helpers:
         return 0
     counter = [0]
     total = [0]
+    bases = {c.name: [ast.unparse(b).split("[")[0].split(".")[-1] for b in c.bases] for c in tree.body if isinstance(c, ast.ClassDef)}
 
-    def expand(call, as_statement=False):
-        """-> (prefix statements, expression) or None"""
-        fn, _, _br = helpers[call.func.id]
-        if _br:
-            return None
-        # the helper's body as it is now (calls to other helpers inside it may have been expanded in the meantime)
-        body = [s_ for s_ in fn.body if not (isinstance(s_, ast.Expr) and isinstance(s_.value, ast.Constant))]
-        is_proc = bool(body) and not any(isinstance(x, ast.Return) for s_ in body for x in ast.walk(s_))
-        if is_proc:
-            if not as_statement or not all(isinstance(s_, _SIMPLE_STMTS) for s_ in body):
+    def derives(cname, target):
+        seen, work = set(), [cname]
+        while work:
+            c = work.pop()
+            if c == target:
+                return True
+            if c in seen:
+                continue
+            seen.add(c)
+            work += bases.get(c, [])
+        return False
+
+    def lookup(call, ctx):
+        """ctx = (name of the function being processed, its class or None, the name of its `self`) -> (def, kind, self name) or None"""
+        f = call.func
+        if isinstance(f, ast.Name) and f.id in helpers and helpers[f.id][1] == "func" and f.id != ctx[0]:
+            return helpers[f.id][0], "func", None
+        if isinstance(f, ast.Attribute) and f.attr in helpers and f.attr != ctx[0] and isinstance(f.value, ast.Name):
+            fn, kind, cls = helpers[f.attr]
+            if kind == "func" or ctx[1] is None or not derives(ctx[1], cls.name):
                 return None
-            body = body + [ast.Return(value=ast.Constant(value=None))]
-        if not body or not isinstance(body[-1], ast.Return) or body[-1].value is None or not all(isinstance(s_, _SIMPLE_STMTS) for s_ in body[:-1]):
-            return None
-        res = _bind(fn, call, counter[0] + 1)
-        if res is None:
-            return None
-        bound, star_pre = res
-        counter[0] += 1
-        tag = counter[0]
-        params = set(bound)
-        assigned = {t.id for s in body for t in ast.walk(s) if isinstance(t, ast.Name) and isinstance(t.ctx, ast.Store)}
-        # a parameter that the helper re-binds becomes a fresh local initialised with the argument
-        pre = list(star_pre)
-        mapping = {}
-        def simple(e):
-            return isinstance(e, (ast.Name, ast.Constant)) or (isinstance(e, ast.Attribute) and simple(e.value)) or \
-                (isinstance(e, ast.Subscript) and simple(e.value) and isinstance(e.slice, (ast.Constant, ast.Name)))
-        for p, e in bound.items():
-            # an argument that is not a plain reference (a constructor call, an arithmetic expression) is evaluated once, into a
-            # fresh local: substituting it at every use would build distinct objects
-            if p in assigned or not simple(e):
-                fresh = f"_inl{tag}_{p}"
-                pre.append(ast.Assign(targets=[ast.Name(id=fresh, ctx=ast.Store())], value=_copy(e), lineno=call.lineno))
-                mapping[p] = fresh
-            else:
-                mapping[p] = e
-        for v in assigned - params:
-            mapping[v] = f"_inl{tag}_{v}"
-        sub = _Subst(mapping)
-        stmts = [sub.visit(_copy(s)) for s in body[:-1]]
-        expr = sub.visit(_copy(body[-1].value))
-        for s in pre + stmts:
-            ast.copy_location(s, call)
-            ast.fix_missing_locations(s)
-        return pre + stmts, expr
+            if ctx[2] is not None and f.value.id == ctx[2]:
+                return fn, kind, ctx[2]
+            if kind == "static" and f.value.id == cls.name:
+                return fn, kind, None
+        return None
 
-    def expand_tail(call):
-        """statements that replace `return <call>`: the helper's body with its parameters bound, or None"""
-        fn, _, _br = helpers[call.func.id]
-        body = [s_ for s_ in fn.body if not (isinstance(s_, ast.Expr) and isinstance(s_.value, ast.Constant))]
-        if not body or not all(isinstance(x, _SIMPLE_STMTS + (ast.If, ast.Return, ast.Raise)) for s_ in body for x in ast.walk(s_) if isinstance(x, ast.stmt)):
-            return None
-        if any(isinstance(x, (ast.Lambda, ast.Yield, ast.YieldFrom, ast.Await, ast.NamedExpr)) for s_ in body for x in ast.walk(s_)):
-            return None
-        res = _bind(fn, call, counter[0] + 1)
+    def body_of(fn):
+        # the helper's body as it is now (calls to other helpers inside it may have been expanded in the meantime)
+        return [s_ for s_ in fn.body if not (isinstance(s_, ast.Expr) and isinstance(s_.value, ast.Constant))]
+
+    def simple(e):
+        return isinstance(e, (ast.Name, ast.Constant)) or (isinstance(e, ast.Attribute) and simple(e.value)) or \
+            (isinstance(e, ast.Subscript) and simple(e.value) and isinstance(e.slice, (ast.Constant, ast.Name))) or \
+            (isinstance(e, ast.Tuple) and all(simple(x) for x in e.elts)) or \
+            (isinstance(e, ast.UnaryOp) and isinstance(e.op, ast.USub) and isinstance(e.operand, ast.Constant))
+
+    def bind(fn, kind, selfname, call):
+        res = _bind(fn, call, counter[0] + 1, drop_self=(kind == "method"))
         if res is None:
             return None
         bound, star_pre = res
-        counter[0] += 1
-        tag = counter[0]
+        if kind == "method":
+            bound = {fn.args.args[0].arg: ast.Name(id=selfname, ctx=ast.Load()), **bound}
+        return bound, star_pre
+
+    def mapping_for(bound, body, tag, call, pre):
         assigned = {t.id for s_ in body for t in ast.walk(s_) if isinstance(t, ast.Name) and isinstance(t.ctx, ast.Store)}
-        pre, mapping = list(star_pre), {}
-
-        def simple(e):
-            return isinstance(e, (ast.Name, ast.Constant)) or (isinstance(e, ast.Attribute) and simple(e.value))
+        mapping = {}
         for p_, e in bound.items():
+            # an argument that is not a plain reference (a constructor call, an arithmetic expression) is evaluated once, into a
+            # fresh local: substituting it at every use would build distinct objects; a parameter that the helper re-binds becomes
+            # a fresh local initialised with the argument
             if p_ in assigned or not simple(e):
                 fresh = f"_inl{tag}_{p_}"
                 pre.append(ast.Assign(targets=[ast.Name(id=fresh, ctx=ast.Store())], value=_copy(e), lineno=call.lineno))
@@ -1173,8 +1311,117 @@ def inline_helpers(tree):
                 mapping[p_] = e
         for v in assigned - set(bound):
             mapping[v] = f"_inl{tag}_{v}"
+        return mapping
+
+    def instantiate(call, hit, direct_args=False):
+        """-> (prefix statements, the helper's body with parameters bound and conditionals on constant arguments resolved) or None.
+        direct_args: no prefix statements may be produced -- every argument is substituted where it is used (refused when a
+        non-trivial argument is used more than once, or a parameter is re-bound)"""
+        fn, kind, selfname = hit
+        body = body_of(fn)
+        if not body:
+            return None
+        res = bind(fn, kind, selfname, call)
+        if res is None:
+            return None
+        bound, star_pre = res
+        if direct_args:
+            if star_pre:
+                return None
+            assigned = {t.id for s_ in body for t in ast.walk(s_) if isinstance(t, ast.Name) and isinstance(t.ctx, ast.Store)}
+            uses = {}
+            for s_ in body:
+                for x in ast.walk(s_):
+                    if isinstance(x, ast.Name) and isinstance(x.ctx, ast.Load):
+                        uses[x.id] = uses.get(x.id, 0) + 1
+            if any(p_ in assigned or (not simple(e) and uses.get(p_, 0) > 1) for p_, e in bound.items()):
+                return None
+        counter[0] += 1
+        tag = counter[0]
+        pre = list(star_pre)
+        if direct_args:
+            assigned = {t.id for s_ in body for t in ast.walk(s_) if isinstance(t, ast.Name) and isinstance(t.ctx, ast.Store)}
+            mapping = dict(bound)
+            for v in assigned:
+                mapping[v] = f"_inl{tag}_{v}"
+        else:
+            mapping = mapping_for(bound, body, tag, call, pre)
         sub = _Subst(mapping)
-        stmts = [sub.visit(_copy(s_)) for s_ in body]
+        mod = ast.Module(body=[sub.visit(_copy(s_)) for s_ in body], type_ignores=[])
+        # a helper called with a literal flag is specialised: `if left:` / `a if left else b` are resolved for this call
+        lifted = True
+        while lifted:
+            f_ = _Fold()
+            f_.visit(mod)
+            lifted = f_.n > 0
+        stmts = [s_ for s_ in mod.body if not isinstance(s_, ast.Pass)] or [ast.Pass()]
+        # statements after an unconditional return cannot be reached (left behind by a resolved `if flag: return ..`)
+        for j_, s_ in enumerate(stmts):
+            if isinstance(s_, (ast.Return, ast.Raise)):
+                stmts = stmts[:j_ + 1]
+                break
+        for s_ in pre + stmts:
+            ast.copy_location(s_, call)
+            ast.fix_missing_locations(s_)
+        return pre, stmts
+
+    def expand(call, hit, as_statement=False):
+        """-> (prefix statements, expression) or None"""
+        save = counter[0]
+        res = instantiate(call, hit)
+        if res is None:
+            return None
+        pre, stmts = res
+        is_proc = not any(isinstance(x, ast.Return) for s_ in stmts for x in ast.walk(s_))
+        shape = _helper_shape(stmts)
+        if is_proc:
+            if not as_statement or shape != "straight":
+                counter[0] = save
+                return None
+            return pre + stmts, ast.Constant(value=None)
+        if shape not in ("straight", "single-exit"):
+            counter[0] = save
+            return None
+        return pre + stmts[:-1], stmts[-1].value
+
+    def expand_expr(call, hit):
+        """the helper as ONE expression (for a call inside a comprehension / lambda / conditional expression), or None: its body
+        (specialised for constant arguments) must be single-name assignments followed by a return, every temporary and every
+        non-trivial argument used at most once"""
+        save = counter[0]
+        res = instantiate(call, hit, direct_args=True)
+        if res is None:
+            return None
+        _, stmts = res
+        ok = isinstance(stmts[-1], ast.Return) and stmts[-1].value is not None and \
+            all(isinstance(s_, ast.Assign) and len(s_.targets) == 1 and isinstance(s_.targets[0], ast.Name) for s_ in stmts[:-1])
+        names = [s_.targets[0].id for s_ in stmts[:-1]] if ok else []
+        if not ok or len(set(names)) != len(names):
+            counter[0] = save
+            return None
+        uses = {}
+        for s_ in stmts:
+            for x in ast.walk(s_):
+                if isinstance(x, ast.Name) and isinstance(x.ctx, ast.Load):
+                    uses[x.id] = uses.get(x.id, 0) + 1
+        env = {}
+        for s_ in stmts[:-1]:
+            v = _Subst(dict(env)).visit(_copy(s_.value))
+            if not simple(v) and uses.get(s_.targets[0].id, 0) > 1:
+                counter[0] = save
+                return None
+            env[s_.targets[0].id] = v
+        expr = _Subst(dict(env)).visit(_copy(stmts[-1].value))
+        ast.copy_location(expr, call)
+        ast.fix_missing_locations(expr)
+        return expr
+
+    def expand_tail(call, hit):
+        """statements that replace `return <call>`: the helper's body with its parameters bound, or None"""
+        res = instantiate(call, hit)
+        if res is None:
+            return None
+        pre, stmts = res
 
         def terminates(blk_):
             if not blk_:
@@ -1182,31 +1429,35 @@ def inline_helpers(tree):
             last = blk_[-1]
             return isinstance(last, (ast.Return, ast.Raise)) or (isinstance(last, ast.If) and terminates(last.body) and terminates(last.orelse))
         if not terminates(stmts):
-            stmts.append(ast.Return(value=ast.Constant(value=None)))
-        for s_ in pre + stmts:
-            ast.copy_location(s_, call)
-            ast.fix_missing_locations(s_)
+            stmts = stmts + [ast.copy_location(ast.Return(value=ast.Constant(value=None)), call)]
+            ast.fix_missing_locations(stmts[-1])
         return pre + stmts
 
-    def process_block(blk, owner_name):
+    def process_block(blk, ctx):
         i = 0
         while i < len(blk):
             st = blk[i]
-            if isinstance(st, ast.Return) and isinstance(st.value, ast.Call) and isinstance(st.value.func, ast.Name) and st.value.func.id in helpers \
-                    and st.value.func.id != owner_name and helpers[st.value.func.id][2]:
-                new_ = expand_tail(st.value)
-                if new_ is not None:
-                    blk[i:i + 1] = new_
-                    total[0] += 1
-                    if total[0] > 500:
-                        return
-                    continue
+            if isinstance(st, ast.Return) and isinstance(st.value, ast.Call):
+                hit = lookup(st.value, ctx)
+                if hit is not None and _helper_shape(body_of(hit[0]) or [ast.Pass()]) in ("branching", "single-exit"):  # straight ones: expand()
+                    new_ = expand_tail(st.value, hit)
+                    if new_ is not None:
+                        blk[i:i + 1] = new_
+                        total[0] += 1
+                        if total[0] > 800:
+                            return
+                        continue
             if isinstance(st, (ast.FunctionDef, ast.AsyncFunctionDef)):
-                process_block(st.body, st.name)
+                decos = [ast.unparse(d) for d in st.decorator_list]
+                is_method_here = ctx[3] and "staticmethod" not in decos and "classmethod" not in decos and st.args.args
+                selfname = st.args.args[0].arg if is_method_here else (ctx[2] if not ctx[3] else None)
+                if not ctx[3] and ctx[2] is not None and any(a_.arg == ctx[2] for a_ in st.args.args + st.args.kwonlyargs):
+                    selfname = None  # a nested function that shadows the enclosing method's self
+                process_block(st.body, (st.name if ctx[3] or ctx[0] is None else ctx[0], ctx[1], selfname, False))
                 i += 1
                 continue
             if isinstance(st, ast.ClassDef):
-                process_block(st.body, owner_name)
+                process_block(st.body, (None, st.name, None, True))
                 i += 1
                 continue
             # calls in the expressions that belong to this statement itself (not to nested blocks)
@@ -1218,25 +1469,33 @@ def inline_helpers(tree):
                     own_exprs.append(v)
                 elif isinstance(v, list):
                     own_exprs += [x for x in v if isinstance(x, ast.AST)]
-            target = None
+            target = target_hit = None
+            inner = None  # a helper call where no statement can be placed
             for e in own_exprs:
                 blocked = set()
                 for x in ast.walk(e):
                     if isinstance(x, _NO_INLINE_INSIDE + (ast.IfExp, ast.BoolOp)):
                         blocked |= {id(y) for y in ast.walk(x) if y is not x}
                 for x in ast.walk(e):
-                    if isinstance(x, ast.Call) and isinstance(x.func, ast.Name) and x.func.id in helpers and x.func.id != owner_name and id(x) not in blocked:
-                        target = x
-                        break
+                    if isinstance(x, ast.Call):
+                        hit = lookup(x, ctx)
+                        if hit is None:
+                            continue
+                        if id(x) not in blocked:
+                            target, target_hit = x, hit
+                            break
+                        if inner is None and id(x) not in getattr(process_block, "_failed", set()):
+                            inner = (x, hit)
                 if target is not None:
                     break
-            if target is not None and not isinstance(st, (ast.For, ast.While, ast.With)) or (target is not None and isinstance(st, (ast.If, ))):
+            loop_header = isinstance(st, (ast.For, ast.While, ast.With))
+            if target is not None and not loop_header:
                 is_stmt = isinstance(st, ast.Expr) and st.value is target
-                res = expand(target, as_statement=is_stmt)
+                res = expand(target, target_hit, as_statement=is_stmt)
                 if res is not None and is_stmt:
                     blk[i:i + 1] = res[0]  # a call made for its effect: the helper's statements replace it
                     total[0] += 1
-                    if total[0] > 500:
+                    if total[0] > 800:
                         return
                     continue
                 if res is not None:
@@ -1250,19 +1509,42 @@ def inline_helpers(tree):
                     blk[i] = R().visit(st)
                     blk[i:i] = pre
                     total[0] += 1
-                    if total[0] > 500:
+                    if total[0] > 800:
                         return
                     continue  # look at the same statements again (nested helper calls)
+            if (target is None or loop_header) and (inner is not None or (target is not None and loop_header)):
+                x, hit = inner if inner is not None else (target, target_hit)
+                expr = expand_expr(x, hit)
+                if expr is not None:
+                    class R2(ast.NodeTransformer):
+                        def visit_Call(self, node):
+                            if node is x:
+                                return expr
+                            return self.generic_visit(node)
+                    blk[i] = R2().visit(st)
+                    total[0] += 1
+                    if total[0] > 800:
+                        return
+                    continue
+                failed = getattr(process_block, "_failed", None)
+                if failed is None:
+                    failed = process_block._failed = set()
+                failed.add(id(x))
+                if inner is not None:
+                    continue  # look for another inner call in the same statement
             for f in ("body", "orelse", "finalbody"):
                 b = getattr(st, f, None)
                 if isinstance(b, list) and b and isinstance(b[0], ast.stmt):
-                    process_block(b, owner_name)
+                    process_block(b, ctx)
             for h in getattr(st, "handlers", []) or []:
-                process_block(h.body, owner_name)
+                process_block(h.body, ctx)
             for c in getattr(st, "cases", []) or []:
-                process_block(c.body, owner_name)
+                process_block(c.body, ctx)
             i += 1
 
-    process_block(tree.body, None)
+    process_block._failed = set()
+    process_block(tree.body, (None, None, None, False))
     ast.fix_missing_locations(tree)
     return total[0]
+
+
